@@ -393,9 +393,9 @@ func (l *lemmas) rrNonEmpty() lemmaResult {
 		if napp != 1 {
 			return lemmaResult{false, fmt.Sprintf("%d append sites for scRefList", napp), "-"}
 		}
-		pcs := newCondSpace(pl.pick, recOf(ltAtom("snapshotNonEmpty", constIs(0), lenOfField("gcpPicker.scRefs"))), "snapshotNonEmpty")
+		pcs := newCondSpace(pl.pick, recOf(lenZeroAtom("snapshotEmpty", lenOfField("gcpPicker.scRefs"))), "snapshotEmpty")
 		for _, call := range pl.callsIn(pl.pick, gai) {
-			if imp, _ := pcs.Implies(pcs.Reach(call), pcs.Atom("snapshotNonEmpty")); !imp {
+			if imp, _ := pcs.Implies(pcs.Reach(call), pcs.Not(pcs.Atom("snapshotEmpty"))); !imp {
 				return lemmaResult{false, "the placement can run with an empty READY snapshot", p.ipos(call)}
 			}
 		}
